@@ -221,6 +221,19 @@ fn main() {
                 more.push_str(&format!("streamcat bytes={} ok={}\n", n, ok));
                 std::fs::write(&rep_path, format!("{}{}", rep, more)).ok();
             }
+            "readn" => {
+                // read p[1] bytes of stdin (or up to end-of-file), then go on
+                let want: usize = p[1].parse().unwrap();
+                let mut buf = [0u8; 4096];
+                let mut n = 0usize;
+                while n < want {
+                    let k = unsafe { libc::read(0, buf.as_mut_ptr() as _, buf.len().min(want - n)) };
+                    if k <= 0 {
+                        break;
+                    }
+                    n += k as usize;
+                }
+            }
             "close" => {
                 unsafe { libc::close(p[1].parse().unwrap()) };
             }
